@@ -183,13 +183,39 @@ func c14Accumulate(r *Run, a *ssa.Alloc, fn *ssa.Function) *c14Acc {
 		}
 		l := loopOfBlock(loops, s.Block())
 		if l == nil || l.rangeOver == nil || l.innerExit {
-			res.detail[X] = "the addition is not inside a plain range loop (or the loop has a break)"
+			res.detail[X] = "the addition is not inside a loop that visits every index once (range, or for i := 0; i < len(items); i++ without break/return)"
 			continue
 		}
 		// the loop ranges over <list>.Items of a listed replica-set list
 		lroot, lpath := accessPath(l.rangeOver)
 		if !(len(lpath) == 1 && lpath[0] == "Items" && listed[lroot]) {
 			res.detail[X] = "the loop does not range over the Items of the listed replica sets"
+			continue
+		}
+		// the list keeps its items while it is traversed (matters for index loops, which re-read
+		// len(list.Items) on every iteration): no assignment to list.Items in this function and, for
+		// an index loop, the list is not handed to a call inside the loop
+		changed := ""
+		for _, b := range fn.Blocks {
+			for _, in := range b.Instrs {
+				switch y := in.(type) {
+				case *ssa.Store:
+					if fa, isFA := y.Addr.(*ssa.FieldAddr); isFA && fieldName(fa) == "Items" && fa.X == lroot {
+						changed = "the listed Items are reassigned at " + r.Prog.Pos(instrPos(y))
+					}
+				case ssa.CallInstruction:
+					if l.classic && l.blocks[b] {
+						for _, a := range y.Common().Args {
+							if unwrap(a) == lroot {
+								changed = "the list is passed to a call inside the index loop at " + r.Prog.Pos(y.Pos())
+							}
+						}
+					}
+				}
+			}
+		}
+		if changed != "" {
+			res.detail[X] = changed
 			continue
 		}
 		// the item is the element of this iteration
